@@ -843,7 +843,7 @@ pub fn run(ctx: &Ctx) -> i32 {
     ctx.outcome_merge(&outcomes);
     ctx.finish(
         "model_checking",
-        &format!("project documents (every supported block type; quoted strings with accents and with the signs $ ( ) , =; 3 abstract variants: all attributes / mandatory only / legacy LIDER) printed in the full product of layout switches {{LF,CRLF}} x attribute order{{file,reversed,rotated}} x number format{{shortest, %.6f, right-aligned, exponent with explicit sign}} x words{{bare,quoted}} x lists{{one line, broken after commas, closing paren alone, broken before commas}} x comments/blank lines{{none, between, inside}} x indentation{{none, tab, 12 spaces + trailing blanks}} x preamble{{none, LIDER}} = 2304 layouts: build_blocks recovers name, type, parent and every attribute value (numbers exactly, lists through extract_*vec), Data::new's typed elements carry the written values / documented defaults; parent tracking on all sequences of length 2..{} over 11 block kinds (each also with one shared name for all its blocks and a distinguishing attribute value per occurrence) and all prefixes of all cyclic rotations of the document; {} real files re-printed by an independent lexer in {} uniform layouts must parse to Debug-identical Data, and every attribute of a real file whose written value is a numeric literal must be recovered as that number; KyG (old/new columns x ./, x 0..2 windows; construction names with commas next to decimal commas) and tbl (0..3 elements x 0..3 spaces x quoting) printers", depth, files.len(), nlay),
+        &format!("project documents (every supported block type; quoted strings with accents and with the signs $ ( ) , =; 3 abstract variants: all attributes / mandatory only / legacy LIDER) printed in the full product of layout switches {{LF,CRLF}} x attribute order{{file,reversed,rotated}} x number format{{shortest, %.6f, right-aligned, exponent with explicit sign, explicit plus sign}} x words{{bare,quoted}} x lists{{one line, broken after commas, closing paren alone, broken before commas}} x comments/blank lines{{none, between, inside}} x indentation{{none, tab, 12 spaces + trailing blanks}} x preamble{{none, LIDER}} = 2880 layouts: build_blocks recovers name, type, parent and every attribute value (numbers exactly, lists through extract_*vec), Data::new's typed elements carry the written values / documented defaults; parent tracking on all sequences of length 2..{} over 11 block kinds (each also with one shared name for all its blocks and a distinguishing attribute value per occurrence) and all prefixes of all cyclic rotations of the document; {} real files re-printed by an independent lexer in {} uniform layouts must parse to Debug-identical Data, and every attribute of a real file whose written value is a numeric literal must be recovered as that number; KyG (old/new columns x ./, x 0..2 windows; construction names with commas next to decimal commas) and tbl (0..3 elements x 0..3 spaces x quoting) printers", depth, files.len(), nlay),
         true,
         json!({}),
     )
